@@ -343,6 +343,10 @@ func RunSubmitBehaviour(c *Ctx, name string, toks []Tok, ih uint64, limit uint64
 				if !s.down() {
 					s.stop(false)
 				}
+			case "stop":
+				if !s.down() {
+					s.stop(true)
+				}
 			case "restart":
 				if s.n.M != nil {
 					s.stop(rng.Intn(2) == 0)
